@@ -382,12 +382,12 @@ pub fn run(cfg: &RunCfg, t0: Instant) -> i32 {
             )
         }
         "C16" => {
-            let shards = cfg.pick(4, 32);
-            let n = cfg.pick(2_500, 10_000);
+            let shards = cfg.pick(4, 24);
+            let n = cfg.pick(2_500, 5_000);
             let mut rep = crate::run_shards(cfg, shards, |s| {
                 pool_shard(cfg, s, n, vec![Box::new(c16::C16::new(cfg.seed * 17 + s as u64))], &|g, _| {
                     g.weights = [18, 8, 16, 8, 10, 30, 2, 6, 2];
-                    g.max_pools = 40;
+                    g.max_pools = 30;
                 })
             });
             rep.floor("creation_payment", 300);
